@@ -28,7 +28,7 @@ def make_table(r):
             [0, S.FLAG_HAS_MCAST, S.FLAG_HAS_MCAST | S.FLAG_SUPPRESS_205,
              S.FLAG_HAS_MCAST | S.FLAG_DIS_SUPPRESS_4XX])))
     unknown = r.choice([None, None, {3}])      # coap_resource_unknown_init: PUT
-    proxy = r.random() < 0.15
+    proxy = r.random() < 0.25
     mpr = r.random() < 0.3
     reg = [2049] if r.random() < 0.2 else []
     return S.Table(res, unknown, proxy, mpr, reg)
@@ -104,13 +104,41 @@ def gen_request(r, table, k):
         n = r.choice([4, 15, 1])
         opts += [(n, b"\x01"), (n, b"\x02")]
         feats.add("legalrep")
-    if r.random() < 0.08:
-        opts.append((35, b"coap://proxy.example/a"))
+    # (the proxy resource of the harness answers for "proxy.example" itself; other.example is
+    # an authority it would have to forward to)
+    phost = r.choice([b"proxy.example", b"other.example"])
+    px = r.random()
+    if table.proxy and px < 0.25:
+        # proxy requests proper, with the option mixes RFC 7252 5.7.1 distinguishes: unknown
+        # critical options that are Safe-to-Forward (13, 21, 65) or Unsafe (19, 31, 67)
+        opts[:] = [(11, b"a")] if r.random() < 0.5 else []
+        if r.random() < 0.6:
+            opts.append((35, b"coap://" + phost + b"/a"))
+            feats.add("proxyuri")
+        else:
+            opts += [(39, b"coap"), (3, phost)]
+            feats.add("proxyscheme")
+        for _ in range(r.choice([0, 1, 1, 2, 3])):
+            n = r.choice([13, 21, 37, 41, 65, 65, 19, 31, 67, 2051])
+            opts.append((n, b"\x01"))
+            feats.add("crit-safe" if not n & 2 else "crit-unsafe")
+        if r.random() < 0.15:
+            opts.append((35, b"coap://" + phost + b"/b") if "proxyuri" in feats else (39, b"coap"))
+            feats.add("rep")
+        if code not in (1, 2, 3, 4):
+            code = 1
+        if typ not in (0, 1):
+            typ = 0
+        return (cw.msg(code, type=typ, mid=(0x3000 + k) & 0xffff,
+                       token=bytes([0xE1, k & 255, k >> 8]), options=opts, payload=b""),
+                False, feats)
+    if px < 0.08:
+        opts.append((35, b"coap://" + phost + b"/a"))
         feats.add("proxyuri")
     if r.random() < 0.08:
         opts.append((39, b"coap"))
         if r.random() < 0.6:
-            opts.append((3, b"proxy.example"))
+            opts.append((3, phost))
         feats.add("proxyscheme")
     if r.random() < 0.12:
         opts.append((16, bytes([r.choice([0, 1, 2, 255])])))
@@ -172,6 +200,21 @@ def run_one(exe, r, nreq, run, stats, witness):
             evs = sim.log[mark:]
             out = [e for e in evs if e["e"] == "wire" and e["to"] == PEER]
             runs = [e for e in evs if e["e"] == "req"]
+            # a proxy that forwards acknowledges a Confirmable request with an Empty ACK (the
+            # direct reply) and sends what its handler produced as a separate response, which
+            # the peer acknowledges in turn
+            separate = None
+            if table.proxy and any(n in (35, 39) for n, _ in req["options"]) and len(out) == 2:
+                b0, b1 = bytes.fromhex(out[0]["b"]), bytes.fromhex(out[1]["b"])
+                if len(b0) == 4 and (b0[0] >> 4) & 3 == 2 and b0[1] == 0 and len(b1) >= 4 and \
+                        (b1[0] >> 4) & 3 in (0, 1) and b1[1] >= 64:
+                    separate = b1
+                    out = out[:1]
+            for e in out + ([{"b": separate.hex()}] if separate else []):
+                b = bytes.fromhex(e["b"])
+                if len(b) >= 4 and (b[0] >> 4) & 3 == 0 and b[1] >= 64:
+                    sim.inject(PEER, SERVER, bytes([0x60, 0, b[2], b[3]]))
+                    sim.run(until=sim.elapsed() + 1, quiesce=False)
             stats["requests"] += 1
             wit = dict(witness, request=wire.hex(), mcast=mcast, k=k,
                        table={"unknown": sorted(table.unknown_methods or []) if
@@ -212,6 +255,23 @@ def run_one(exe, r, nreq, run, stats, witness):
                 stats["not_judged"] += 1
                 continue
             stats["judged"] += 1
+            if outs == S.PROXY_FORWARD:
+                stats["proxy_forward_judged"] = stats.get("proxy_forward_judged", 0) + 1
+                if separate is not None:
+                    try:
+                        sp = cw.decode(separate, "udp")
+                        if sp["token"] != req["token"]:
+                            run.violation("token-not-echoed", wit, "separate response token %s"
+                                          % sp["token"].hex())
+                    except Exception as ex:
+                        run.violation("reply-not-wellformed", wit, "%s: %r" % (separate.hex(), ex))
+                if len(runs) != 1 or runs[0]["res"] != "*proxy*":
+                    run.violation("proxy-request-not-handed-to-proxy-handler/%s" %
+                                  (("got-%d.%02d" % (reply["code"] >> 5, reply["code"] & 31))
+                                   if reply else "no-reply"), wit,
+                                  "forwarding request %r: handler runs %r, reply %r" %
+                                  (req, [e["res"] for e in runs], reply))
+                continue
             keys = set(o.key() for o in outs)
             if obs not in keys and mcast and obs[0] == ("rst",):
                 run.violation("reset-sent-to-multicast-request", wit,
@@ -324,8 +384,12 @@ def main(tier):
                 "features, multicast, observed outcome) tuples")
     run.assumptions = ["vf/refs/serverspec.py (DESIGN.md appendix A) returns a SET of admissible "
                        "outcomes; precedence between simultaneous error conditions is not judged",
-                       "ACK/RST-typed and response-class 'requests' and forwarding through a "
-                       "configured proxy resource: only 'at most one datagram' is judged"]
+                       "ACK/RST-typed and response-class 'requests': only 'at most one datagram' "
+                       "is judged; requests with proxy options on a server with a proxy resource: "
+                       "4.02 for Unsafe unknown critical options and illegal repetitions, and plain "
+                       "forwarding requests (foreign authority, at most Safe-to-Forward unknown "
+                       "critical options) reach the proxy handler once (Empty ACK + separate "
+                       "response); other proxy requests: only 'at most one direct reply'"]
     exe = build.ensure_world("asan")
     nworld, nreq = (480, 60) if tier == "quick" else (4000, 100)
     chunk = 5
@@ -342,4 +406,5 @@ def main(tier):
                 "worlds": nworld, "requests_per_world": nreq})
     run.require("judged", stats.get("judged", 0), 2000)
     run.require("handler_runs", stats.get("handler_runs", 0), 300)
+    run.require("proxy_forward_judged", stats.get("proxy_forward_judged", 0), 100)
     return run.finish()
